@@ -77,6 +77,13 @@ claimed.update({
                 note="Outside: policy selection for a workload and filter ordering (builder.go), CUSTOM/AUDIT/dry-run, when-conditions, ipBlocks, path templates, trust-domain aliases, case folding. Open finding F10 (namespace suffix wildcard) is listed in KNOWN_FINDINGS.json.", ref="§4 C08"),
 })
 
+claimed.update({
+    "C14": dict(text="Sidecar route configurations only (thin): the real BuildSidecarOutboundVirtualHosts on a real PushContext/SidecarScope for every pair (thorough: triple) of service hostnames and an optional VirtualService host drawn from near-colliding shapes: "
+                     "virtual-host names unique, domains unique within the route configuration, non-empty, and every service routable by its own hostname; plus the domain kernel (generateVirtualHostDomains, GenerateAltVirtualHosts, dedupeDomains) "
+                     "with symbolic hostnames decided by the solver: domains of distinct services disjoint after de-duplication and a service never loses its own hostname.",
+                note="Outside (stated): listeners and filter-chain matches, clusters, gateways, EnvoyFilter patches, weights, protoc-gen-validate rules, EDS/RDS closure, objects that bypass validation. This is a partial check of C14.", ref="§4 C14"),
+})
+
 na = {
     "C16": "krt (pkg/kube/krt) is built from generics instantiated over interface-typed collections, reflection-driven equality, unbounded goroutine/queue fan-out per handler and informer machinery; "
            "a symbolic run needs hundreds of thousands of interpreted instructions per event before the first branch on input and the per-handler queues multiply schedules beyond the pre-emption bound the engine can cover; "
